@@ -160,6 +160,48 @@ def _int_train_lists_core(draw, min_trains=2, max_trains=2, max_spikes=8, max_le
             lo, hi = ((0, n // 4) if k % 2 == 0 else (n - n // 4, n))
             trains[k] = _uniq_sorted(draw(st.lists(st.integers(lo, hi), min_size=1, max_size=2)))
         return dict(q=q, k0=k0, n=n, trains=trains, sparse_far=True)
+    if shape in (2, 3, 4) and n >= 80 and nt >= 2:
+        # a dense long train (33..130 spikes, regular with period 1, 2 or 4 grid units)
+        # next to a sparse one (1-4 spikes): inside it, all before it, all after it,
+        # at block-sized index distances (32, 64 dense spikes between two sparse ones), or
+        # straddling it (one spike far away, the other with 32+ dense spikes still to come
+        # and its own ISI longer than the rest of the recording) - fast paths for "many
+        # spikes left to scan" / "other train exhausted" live here
+        where = draw(st.sampled_from(["inside", "blockish", "before", "after", "any",
+                                      "straddle_late", "straddle_early", "blockish", "blockish"]))
+        pers = [p_ for p_ in (1, 2, 4) if 40 * p_ <= n]
+        if where == "blockish" and len(pers) > 1:
+            pers = pers[1:]
+        per = 1 if where.startswith("straddle") else draw(st.sampled_from(pers))
+        kmax = min(130, n // per)
+        if where.startswith("straddle"):
+            kmax = min(kmax, n // 2 + 20)
+        k = draw(st.one_of(st.integers(40, kmax), st.sampled_from(
+            [v for v in (40, 63, 64, 65, 66, 96, 97, 128, 129) if v <= kmax])))
+        span = per * (k - 1)
+        a = {"straddle_late": n - span, "straddle_early": 0}.get(where)
+        if a is None:
+            a = draw(st.integers(0, n - span))
+        dense = [a + per * j for j in range(k)]
+        if where == "blockish":
+            i = draw(st.integers(0, 3))
+            sparse = []
+            while i < k and len(sparse) < 4:
+                sparse.append(min(n, dense[i] + draw(st.sampled_from([1, 1, 0, per - 1]))))
+                i += draw(st.sampled_from([32, 31, 33, 64, 63, 65]))
+        elif where == "straddle_late" and dense[-33] >= n // 2 + 1:
+            s1 = draw(st.integers(max(dense[0] - 2, n // 2 + 1), dense[-33]))
+            sparse = [draw(st.integers(0, 2 * s1 - n - 1)), s1]
+        elif where == "straddle_early" and dense[32] <= (n - 1) // 2:
+            s0 = draw(st.integers(dense[32], min(dense[-1] + 2, (n - 1) // 2)))
+            sparse = [s0, draw(st.integers(2 * s0 + 1, n))]
+        else:
+            lo, hi = {"inside": (dense[0], dense[-1]), "before": (0, max(0, dense[0] - 1)),
+                      "after": (min(n, dense[-1] + 1), n)}.get(where, (0, n))
+            sparse = draw(st.lists(st.integers(lo, hi), min_size=1, max_size=4))
+        i = draw(st.integers(0, nt - 1))
+        j = (i + 1 + draw(st.integers(0, nt - 2))) % nt
+        trains[i], trains[j] = dense, _uniq_sorted(sparse)
     if shape == 1 and k0 <= 0 <= k0 + n:
         # a train whose only spike is at time 0.0 exactly
         trains[draw(st.integers(0, len(trains) - 1))] = [-k0]
